@@ -3,6 +3,7 @@ view evaluation and forked USE (C10)"""
 from __future__ import annotations
 
 import copy
+import os
 import json
 import random
 from typing import Any, Optional
@@ -186,6 +187,69 @@ def purity_check(call) -> Optional[dict]:
     if canon_safe(r1) != canon_safe(r4):
         return {"kind": "depends-on-earlier-calls", "this_component": r1, "pristine_component": r4}
     return None
+
+
+# ------------------------------------------------------------------ C08: calls that can be replayed in another interpreter
+def portable_call(call) -> Optional[dict]:
+    """a harvested call as plain JSON (component class + description, method, payload, state class + dump); None if it
+    does not survive the trip (checked here: the rebuilt call answers like the original)"""
+    import json
+    owner, method, args = call["owner"], call["method"], call["args"]
+    try:
+        it = {"cls": [type(owner).__module__, type(owner).__qualname__], "owner": owner.model_dump(mode="json"),
+              "method": method, "args": []}
+        for a in args:
+            if hasattr(a, "model_dump"):
+                it["args"].append({"state": [type(a).__module__, type(a).__qualname__], "dump": a.model_dump(mode="json")})
+            else:
+                it["args"].append({"json": json.loads(json.dumps(a))})
+        json.dumps(it)
+        return it
+    except Exception:  # noqa: BLE001
+        return None
+
+
+def twin_of(item: dict) -> Optional[dict]:
+    """the same call on a component of the SAME NAME whose description differs in one number (its damage modifier if it
+    has one): what an engine built for another configuration holds"""
+    import json
+    tw = json.loads(json.dumps(item))
+    d = tw["owner"]
+    if isinstance(d.get("modifier"), dict) or ("modifier" in d and d["modifier"] is None):
+        m = dict(d["modifier"] or {})
+        m["final_damage_multiplier"] = float(m.get("final_damage_multiplier", 0.0)) + 7.0
+        d["modifier"] = m
+        return tw
+    for k in ("damage", "cooldown_duration", "lasting_duration", "delay", "hit"):
+        if isinstance(d.get(k), (int, float)) and not isinstance(d.get(k), bool) and d[k] > 0:
+            d[k] = d[k] * 1.5 if isinstance(d[k], float) else d[k] + 1
+            return tw
+    return None
+
+
+def order_dependence(items: list, timeout: float = 240.0) -> list:
+    """run the calls in two new interpreters, in the given and in the opposite order; the answers that differ"""
+    import json
+    import subprocess
+    import sys
+    from pathlib import Path
+    script = str(Path(__file__).with_name("c08_order.py"))
+    env = dict(os.environ, PYTHONHASHSEED="0")
+    procs = [subprocess.Popen([sys.executable, script], stdin=subprocess.PIPE, stdout=subprocess.PIPE,
+                              stderr=subprocess.PIPE, text=True, env=env) for _ in range(2)]
+    outs = []
+    for p, lst in zip(procs, (items, items[::-1])):
+        try:
+            o, _e = p.communicate(json.dumps(lst), timeout=timeout)
+            outs.append(json.loads(o) if p.returncode == 0 else None)
+        except Exception:  # noqa: BLE001
+            p.kill()
+            outs.append(None)
+    if outs[0] is None or outs[1] is None or len(outs[0]) != len(items) or len(outs[1]) != len(items):
+        return [{"error": "a helper interpreter gave no answer"}]
+    back = outs[1][::-1]
+    return [{"index": i, "in_list_order": a[:400], "in_reverse_order": b[:400]}
+            for i, (a, b) in enumerate(zip(outs[0], back)) if a != b]
 
 
 # ------------------------------------------------------------------ C08: observations for the effect model
